@@ -88,6 +88,16 @@ def main():
                 rec["fold"] = False
                 import calendar
                 rec["want_day_start"] = calendar.timegm((tm.tm_year, tm.tm_mon, tm.tm_mday, 0, 0, 0))
+            # created at MIDNIGHT of that day (a time word of 0 is a time, not "no time"), modified at another time of day (C17-m9: zero fields
+            # "fall back" to the modification stamp)
+            try:
+                ds = rec["want_day_start"]
+                if 1980 <= conv(ds).tm_year <= 2107 and abs(t - ds) > 7200:
+                    f.setinfo("/t.txt", {"details": {"created": ds, "modified": t}})
+                    d2 = f.getinfo("/t.txt", namespaces=["details"]).raw["details"]
+                    rec["mid_created"], rec["mid_want"], rec["mid_fields"] = d2["created"], ds, civil(conv(ds))
+            except Exception as e3:  # noqa
+                rec["mid_error"] = f"{type(e3).__name__}: {e3}"
             out["results"].append(rec)
         # stamping of new entries against the wall clock
         t0 = time.time()
